@@ -310,7 +310,7 @@ def make_tracing(base, peek=False):
             h.step_probes = 0
             h.in_step = True
             exc = None
-            if self._peek_mode and pk != inf:
+            if self._peek_mode and (pk != inf or self._queue):      # an occurrence may be due at infinity (run(until=inf))
                 occ = self._head_occ()
                 if occ is not None:
                     self._probe(occ)
@@ -961,10 +961,17 @@ class Interp:
                 raise HarnessError(f"bad tree {t}")
             evs = [k.ev for k in kids]
             pre = [k.processed_step is not None for k in kids]
+            # operands may be handed over as any iterable: list, tuple, generator expression, iterator (also when empty)
+            shape = (len(evs) + 2 * pc + pid) % 4
+            arg = [evs, tuple(evs), (e for e in evs), iter(evs)][shape]
+            if shape >= 2:
+                h.bump("operands given as a lazy iterable")
+                if not evs:
+                    h.bump("empty lazy iterable of operands")
             if op == "all":
-                ev = self.env.all_of(evs)
+                ev = self.env.all_of(arg)
             elif op == "any":
-                ev = self.env.any_of(evs)
+                ev = self.env.any_of(arg)
             elif op == "and":
                 ev = evs[0] & evs[1]
             else:
